@@ -322,6 +322,31 @@ def run(ctx) -> list[Inst]:
                  f"for each include while the visitor runs - before 'if {stmt_text(g.ast.test)}' of the outer call: "
                  f"errors of a file that includes a clean file are forgotten and the malformed file is accepted"),
             file=rel, line=n.lineno, props=props))
+    # (a7) nothing pulls a token before the raising listener sits on the lexer: CommonTokenStream / the parser fetch
+    # tokens on demand (LA, LT, fill, getText, nextToken ...); lexer errors met during such an early fetch go to
+    # ANTLR's console listener and are dropped
+    _lc2 = find_ctor(f, 'malLexer')
+    lv2, la2 = bound_var(_lc2) if _lc2 is not None else (None, None)
+    if lv2 is not None:
+        linst = [node for (_e, node) in installs_on(_lc2, lv2, la2)]
+        stream_vars = {lv2}
+        for n in own_nodes(f.node):
+            if isinstance(n, ast.Assign) and isinstance(n.targets[0], ast.Name) and isinstance(n.value, ast.Call) \
+                    and any(isinstance(a, ast.Name) and a.id in stream_vars for a in n.value.args) \
+                    and 'Parser' not in stmt_text(n.value.func) and 'parser' not in stmt_text(n.value.func).lower():
+                stream_vars.add(n.targets[0].id)
+        PULL = {'LA', 'LT', 'LB', 'fill', 'getText', 'nextToken', 'getAllTokens', 'getTokens', 'consume', 'get', 'sync'}
+        for n in own_nodes(f.node):
+            if isinstance(n, ast.Call) and isinstance(n.func, ast.Attribute) and n.func.attr in PULL \
+                    and isinstance(n.func.value, ast.Name) and n.func.value.id in stream_vars:
+                pn = cfg.owner(n)
+                if pn is not None and linst and not any(cfg.dominates(ln, pn) and ln is not pn for ln in linst):
+                    insts.append(Inst(
+                        RULE, f.short, '(a) no token is fetched before the error listener is on the lexer', 'violation',
+                        msg=(f"'{stmt_text(n)}' makes the lexer produce tokens before the raising listener is attached to "
+                             f"it (the attachment comes later / on another path): characters that form no token at the "
+                             f"start of a file are only printed by ANTLR's default listener and dropped, the rest compiles"),
+                        file=rel, line=n.lineno, props=props))
     # (a4) lexer errors (characters that form no token) must surface as well
     lctor = find_ctor(f, 'malLexer')
     lexer_var, lassign = bound_var(lctor) if lctor is not None else (None, None)
